@@ -100,6 +100,18 @@ SPECS = {
             "[executor_reads] is transcribed from operations/*.go; its tie to the code is the hostile stream (no panic) and the decoder verdict correspondence",
         ],
     },
+    "C18": {
+        "corr": ["Yson", "Proto"],
+        "engines": [
+            {"name": "yson", "n": {"quick": 400, "thorough": 5000}},
+            {"name": "hist", "tag": "c18", "extra": "prop=C10,flavor=tree+text+mixed+arraymove+object", "n": {"quick": 200, "thorough": 3000}, "seed_off": 5},
+        ],
+        "explanation": "Theorems on the text path where it deviates from JSON: Unmarshal's global ReplaceAll rewriting is the identity exactly on texts without constructor tokens and ')' and is refuted otherwise; Long values come back exactly up to 2^53 and are refuted beyond (model compared with yson.Unmarshal on every run). Engine: every reachable document of two-author histories (all element types incl. nested containers, styled text, trees with attributes, dedup counters as members and as array elements) and generated literals (every primitive kind at extreme values, counters, texts, trees, nesting; a separate unsafe-string stream) go through the value path FromCRDT -> SetYSON -> FromCRDT (what packs.Compact does), the text path Marshal -> Unmarshal -> SetYSON (what revision restore does) and a stability check; on a real server revisions are created, the document edited on and restored, and documents are compacted and rebuilt from the compacted log; histories with compactions on the real server (C10 oracles) run on tree/text/mixed documents.",
+        "assumptions": [
+            "PARTIAL: the value path (SetYSON / FromCRDT) has no Coq model: decided by the differential engine",
+            "encoding/json is trusted as a JSON parser with float64 numbers; the DedupCounter regular expression is not modelled",
+        ],
+    },
     "C04": {
         "corr": ["Proto"],
         "engines": [
